@@ -209,6 +209,14 @@ fn main() {
             println!("{}", serde_json::to_string(&rep).unwrap());
             code
         }
+        "hashfile-big" => {
+            let dir = arg_val(&args, "--dir").unwrap_or_else(|| harness_error("--dir"));
+            let variant = parse_u64(&arg_val(&args, "--variant").unwrap_or_else(|| "1".into())) as u8;
+            let total = parse_u64(&arg_val(&args, "--total").unwrap_or_else(|| "4224281217".into()));
+            let (code, rep) = c12file::big_file(&dir, variant, total);
+            println!("{}", serde_json::to_string(&rep).unwrap());
+            code
+        }
         "hashfile-one" => {
             println!("{}", c12file::one(&arg_val(&args, "--path").unwrap_or_else(|| harness_error("--path"))));
             0
